@@ -78,4 +78,267 @@ example :
     emptySegment urlUsers123 = false ∧ appliedRemedies [epUsersMe, epUsersId] "GET" urlUsers123 = some ["A"] := by
   decide
 
+/-! ### (P) and (N): parameters and normalised URL -/
+
+/-- (P) Outside F13a–d: every extracted `(name, value)` is `{name}` in the applied policy's pattern at a
+    position where the request URL has the segment `value`. -/
+theorem params_are_segments_partial (es : List Endpoint) (g : Globals) (pt : PTree) (m : String) (u : List Part)
+    (hbuild : build es = .ok pt)
+    (hF13a : crossMatchEarlier es = false) (hF13c : boundaryMix es u = false)
+    (hF13d : emptySegment u = false) (hF13b : wildDisplaced es u = false) :
+    paramsOkA es m u (observe pt g m u) = true := by
+  have hne : urlNonEmpty u = true := by simpa [emptySegment] using hF13d
+  have hinv := build_inv hF13a hbuild
+  unfold paramsOkA
+  apply any_soundFor g m u (fun e => paramsOk e.parts u (observe pt g m u).params)
+    (select_sound hinv m u hne hF13c)
+  intro pol hp
+  obtain ⟨_, hpar⟩ := select_exact hinv m u hne hF13c hF13b pol hp
+  simp only [paramsOk, observe, hpar]
+  rw [List.all_eq_true]
+  intro ⟨k, v⟩ hkv
+  rcases bindParams_mem _ _ _ _ _ hkv with h | ⟨pu, hpu, h1, h2⟩
+  · simp at h
+  · rw [List.any_eq_true]
+    exact ⟨pu, hpu, by simp [h1, h2]⟩
+
+/-- (N) Outside F13a–d: the reported normalised URL is the applied policy's declared pattern (which matches
+    the request, by `sound_partial`). -/
+theorem normalized_is_declared_and_matches_partial (es : List Endpoint) (g : Globals) (pt : PTree)
+    (m : String) (u : List Part) (hbuild : build es = .ok pt)
+    (hF13a : crossMatchEarlier es = false) (hF13c : boundaryMix es u = false)
+    (hF13d : emptySegment u = false) (hF13b : wildDisplaced es u = false) :
+    normOk es m u (observe pt g m u) = true := by
+  have hne : urlNonEmpty u = true := by simpa [emptySegment] using hF13d
+  have hinv := build_inv hF13a hbuild
+  unfold normOk
+  apply any_soundFor g m u (fun e => (observe pt g m u).normParts == e.parts)
+    (select_sound hinv m u hne hF13c)
+  intro pol hp
+  obtain ⟨hnorm, _⟩ := select_exact hinv m u hne hF13c hF13b pol hp
+  simp [observe, hnorm]
+
+/-- `GET a.com/x/*` → remedy A (F13b witness). -/
+def epXWild : Endpoint :=
+  ⟨"GET", "a.com/x/*", [⟨true, .lit "a"⟩, ⟨true, .lit "com"⟩, ⟨false, .lit "x"⟩, ⟨false, .wild⟩], [⟨"A", 1, true⟩], []⟩
+def urlX : List Part := [⟨true, .lit "a"⟩, ⟨true, .lit "com"⟩, ⟨false, .lit "x"⟩]
+def urlXY : List Part := urlX ++ [⟨false, .lit "y"⟩]
+
+/-- Normalised URL reported for `(m, u)` (parts), `none` on build error or when no policy applies. -/
+def reportedNorm (es : List Endpoint) (m : String) (u : List Part) : Option (List Part) :=
+  match build es with
+  | .ok pt => (select pt m u).policy.map (fun _ => (select pt m u).norm)
+  | .error _ => none
+
+/-- F13b.  Only `a.com/x/*` declared, request `a.com/x`: the policy is applied (the `*` swallows nothing)
+    but the reported normalised URL is `a.com/x`, which is not a declared pattern. -/
+theorem zero_segment_wildcard_violation_witness :
+    reportedNorm [epXWild] "GET" urlX = some urlX ∧ urlX ≠ epXWild.parts ∧
+    wildDisplaced [epXWild] urlX = true ∧
+    (∃ pt, build [epXWild] = .ok pt ∧ normOk [epXWild] "GET" urlX (observe pt noGlobals "GET" urlX) = false) := by
+  refine ⟨by decide, by decide, by decide, ?_⟩
+  cases h : build [epXWild] with
+  | error e =>
+    have : (match build [epXWild] with | .ok _ => true | .error _ => false) = true := by decide
+    rw [h] at this
+    exact absurd this (by simp)
+  | ok pt =>
+    refine ⟨pt, rfl, ?_⟩
+    have : (match build [epXWild] with
+      | .ok pt => normOk [epXWild] "GET" urlX (observe pt noGlobals "GET" urlX)
+      | .error _ => true) = false := by decide
+    rw [h] at this
+    exact this
+
+/-- non-vacuity of (P)/(N): a request with one more segment is outside every excluded class, the policy
+    is applied and the normalised URL is the declared pattern. -/
+example :
+    crossMatchEarlier [epXWild] = false ∧ boundaryMix [epXWild] urlXY = false ∧ emptySegment urlXY = false ∧
+    wildDisplaced [epXWild] urlXY = false ∧ reportedNorm [epXWild] "GET" urlXY = some epXWild.parts := by
+  decide
+
+/-- non-vacuity of (P): a parameter is extracted. -/
+example :
+    wildDisplaced [epUsersMe, epUsersId] urlUsers123 = false ∧
+    (match build [epUsersMe, epUsersId] with
+     | .ok pt => (select pt "GET" urlUsers123).params == [("id", "123")]
+     | .error _ => false) = true := by
+  decide
+
+/-! ### (M): most specific, as far as the non-backtracking lookup guarantees it -/
+
+/-- (M) Outside F13a, F13c, F13d: the applied policy's pattern `p` is at least as specific (`specLE`:
+    literal > parameter > wildcard, position-wise, lexicographic) as EVERY declared pattern `q` that matches
+    the request — except when `passedOver p q`: `p` ends in `*` and `q` follows the same trie path up to that
+    `*` and continues with a literal/parameter there.  That exception is precisely the lookup's lack of
+    backtracking (after entering a literal/parameter child it can only fall back to the deepest `*` seen);
+    it never arises when the applied pattern does not end in `*`. -/
+theorem most_specific_partial (es : List Endpoint) (g : Globals) (pt : PTree) (m : String) (u : List Part)
+    (hbuild : build es = .ok pt)
+    (hF13a : crossMatchEarlier es = false) (hF13c : boundaryMix es u = false)
+    (hF13d : emptySegment u = false) :
+    mostSpecificOk es m u (observe pt g m u) = true := by
+  have hne : urlNonEmpty u = true := by simpa [emptySegment] using hF13d
+  have hinv := build_inv hF13a hbuild
+  unfold mostSpecificOk
+  exact any_soundFor g m u (fun e => mostSpecificFor es u e) (select_sound hinv m u hne hF13c)
+    (select_most_specific hinv m u hne hF13c)
+
+/-- The `passedOver` exception is empty for patterns that do not end in `*`: an applied literal/parameter
+    pattern is a maximum of the matching declared patterns. -/
+theorem passedOver_only_wildcard (p q : Pattern) (h : passedOver p q = true) :
+    ∃ l, p.getLast? = some l ∧ l.seg = .wild := by
+  induction p generalizing q with
+  | nil => simp [passedOver] at h
+  | cons a p ih =>
+    cases q with
+    | nil => simp [passedOver] at h
+    | cons b q =>
+      cases p with
+      | nil => simp [passedOver] at h; exact ⟨a, rfl, h.1⟩
+      | cons c p =>
+        simp only [passedOver, List.isEmpty_cons, Bool.false_eq_true, if_false, Bool.and_eq_true] at h
+        obtain ⟨l, hl, hw⟩ := ih q h.2
+        exact ⟨l, by simpa [List.getLast?_cons_cons] using hl, hw⟩
+
+/-- `GET a.com/x/y`→A, `GET a.com/{p}/z`→B, `GET a.com/*`→C (pairwise no cross-match). -/
+def epXY : Endpoint :=
+  ⟨"GET", "a.com/x/y", [⟨true, .lit "a"⟩, ⟨true, .lit "com"⟩, ⟨false, .lit "x"⟩, ⟨false, .lit "y"⟩], [⟨"A", 1, true⟩], []⟩
+def epPZ : Endpoint :=
+  ⟨"GET", "a.com/{p}/z", [⟨true, .lit "a"⟩, ⟨true, .lit "com"⟩, ⟨false, .par "p"⟩, ⟨false, .lit "z"⟩], [⟨"B", 2, true⟩], []⟩
+def urlXZ : List Part := [⟨true, .lit "a"⟩, ⟨true, .lit "com"⟩, ⟨false, .lit "x"⟩, ⟨false, .lit "z"⟩]
+def urlWZ : List Part := [⟨true, .lit "a"⟩, ⟨true, .lit "com"⟩, ⟨false, .lit "w"⟩, ⟨false, .lit "z"⟩]
+
+/-- The lookup does not backtrack: `a.com/x/z` is matched by the declared `a.com/{p}/z`, but the walk takes
+    the literal `x` and finds nothing — no policy is applied (this is the design of the trie, stated here so
+    that (M) is not over-read as a completeness claim). -/
+theorem no_backtracking_witness :
+    «matches» epPZ.parts urlXZ = true ∧ crossMatch [epXY, epPZ] = false ∧
+    appliedRemedies [epXY, epPZ] "GET" urlXZ = some [] ∧
+    appliedRemedies [epXY, epPZ] "GET" urlWZ = some ["B"] := by
+  decide
+
+/-- non-vacuity of (M): two declared patterns match `api.com/users/me`, the literal one is applied. -/
+example :
+    crossMatchEarlier [epUsersMe, epUsersId] = false ∧
+    «matches» epUsersId.parts epUsersMe.parts = true ∧ «matches» epUsersMe.parts epUsersMe.parts = true ∧
+    appliedRemedies [epUsersMe, epUsersId] "GET" epUsersMe.parts = some ["B"] ∧
+    specLE epUsersId.parts epUsersMe.parts = true ∧ specLE epUsersMe.parts epUsersId.parts = false := by
+  decide
+
+def epWildAll : Endpoint :=
+  ⟨"GET", "a.com/*", [⟨true, .lit "a"⟩, ⟨true, .lit "com"⟩, ⟨false, .wild⟩], [⟨"C", 3, true⟩], []⟩
+
+/-- The `passedOver` exception of (M) is real: with `a.com/x/y`, `a.com/{p}/z`, `a.com/*` declared (in this
+    order: no declared URL is matched by an earlier pattern), `a.com/x/z` gets the `*` policy although the
+    matching `a.com/{p}/z` is more specific — the walk entered `x`, failed, and fell back to the `*`. -/
+theorem passed_over_witness :
+    crossMatchEarlier [epXY, epPZ, epWildAll] = false ∧
+    appliedRemedies [epXY, epPZ, epWildAll] "GET" urlXZ = some ["C"] ∧
+    «matches» epPZ.parts urlXZ = true ∧ specLE epPZ.parts epWildAll.parts = false ∧
+    passedOver epWildAll.parts epPZ.parts = true := by
+  decide
+
+/-! ### (G) and the connection theorem: the judge's per-request predicate holds of every model answer -/
+
+/-- (G) Global remedies/diagnoses and `shouldDiagnose` are as specified — unconditionally. -/
+theorem globals_ok (pt : PTree) (g : Globals) (m : String) (u : List Part) :
+    globalsOk g (observe pt g m u) = true := globalsOk_observe pt g m u
+
+/-- Connection theorem.  `reqOk` — the very predicate `lvdriver_c13 judge` evaluates on the
+    implementation's answers — is true of the model's answer to EVERY request on EVERY successfully built
+    endpoint list, outside the four excluded classes (whose members the judge labels F13a–d). -/
+theorem c13_holds_partial (es : List Endpoint) (g : Globals) (pt : PTree) (m : String) (u : List Part)
+    (hbuild : build es = .ok pt)
+    (hF13a : crossMatchEarlier es = false) (hF13b : wildDisplaced es u = false)
+    (hF13c : boundaryMix es u = false) (hF13d : emptySegment u = false) :
+    reqOk es g m u (observe pt g m u) = true := by
+  unfold reqOk
+  rw [sound_partial es g pt m u hbuild hF13a hF13c hF13d,
+    most_specific_partial es g pt m u hbuild hF13a hF13c hF13d,
+    params_are_segments_partial es g pt m u hbuild hF13a hF13c hF13d hF13b,
+    normalized_is_declared_and_matches_partial es g pt m u hbuild hF13a hF13c hF13d hF13b,
+    globals_ok]
+  rfl
+
+/-! ### the remaining excluded classes are not empty on the unchanged code -/
+
+def urlEvil : List Part :=
+  [⟨true, .lit "a"⟩, ⟨true, .lit "com"⟩, ⟨true, .lit "evil"⟩, ⟨true, .lit "org"⟩, ⟨false, .lit "x"⟩]
+
+/-- F13c.  `a.com/*` is applied to the host `a.com.evil.org`. -/
+theorem boundary_violation_witness :
+    appliedRemedies [epWildAll] "GET" urlEvil = some ["C"] ∧ «matches» epWildAll.parts urlEvil = false ∧
+    boundaryMix [epWildAll] urlEvil = true ∧ crossMatchEarlier [epWildAll] = false ∧ emptySegment urlEvil = false := by
+  decide
+
+def epUserPosts : Endpoint :=
+  ⟨"GET", "a.com/users/{id}/posts",
+    [⟨true, .lit "a"⟩, ⟨true, .lit "com"⟩, ⟨false, .lit "users"⟩, ⟨false, .par "id"⟩, ⟨false, .lit "posts"⟩],
+    [⟨"A", 1, true⟩], []⟩
+/-- `a.com/users//posts` -/
+def urlEmptyId : List Part :=
+  [⟨true, .lit "a"⟩, ⟨true, .lit "com"⟩, ⟨false, .lit "users"⟩, ⟨false, .lit ""⟩, ⟨false, .lit "posts"⟩]
+
+/-- F13d.  `{id}` accepts the empty segment of `a.com/users//posts`. -/
+theorem empty_segment_violation_witness :
+    appliedRemedies [epUserPosts] "GET" urlEmptyId = some ["A"] ∧ «matches» epUserPosts.parts urlEmptyId = false ∧
+    emptySegment urlEmptyId = true ∧ boundaryMix [epUserPosts] urlEmptyId = false := by
+  decide
+
+def epX1 : Endpoint := ⟨"GET", "a.com/x", urlX, [⟨"A", 1, true⟩], []⟩
+def epX2 : Endpoint := ⟨"GET", "a.com/x", urlX, [⟨"B", 2, true⟩], []⟩
+
+/-- F13e.  The same method+URL declared twice with remedies of different types is accepted and the later
+    declaration replaces the earlier one: the outcome depends on the declaration order although no pattern
+    cross-matches another. -/
+theorem duplicate_key_order_witness :
+    appliedRemedies [epX1, epX2] "GET" urlX = some ["B"] ∧ appliedRemedies [epX2, epX1] "GET" urlX = some ["A"] ∧
+    crossMatch [epX1, epX2] = false ∧ dupKeys [epX1, epX2] = true := by
+  decide
+
+/-- (D) Outside F13a, F13c, F13d: the remedy that answers through the dispatcher (first of the endpoint-scoped
+    then global enabled remedies) is an enabled global remedy or an enabled remedy of an endpoint declared for
+    the request's method whose pattern matches the request URL. -/
+theorem dispatch_sound_partial (es : List Endpoint) (g : Globals) (pt : PTree) (m : String) (u : List Part)
+    (first : String) (hbuild : build es = .ok pt)
+    (hF13a : crossMatchEarlier es = false) (hF13c : boundaryMix es u = false)
+    (hF13d : emptySegment u = false) (hd : dispatchFirst pt g m u = some first) :
+    dispOk es g m u first = true := by
+  have hne : urlNonEmpty u = true := by simpa [emptySegment] using hF13d
+  have hinv := build_inv hF13a hbuild
+  have hmem : first ∈ (getRemedies pt g m u).1 ++ (getRemedies pt g m u).2 := by
+    unfold dispatchFirst at hd
+    exact List.mem_of_mem_head? hd
+  unfold dispOk
+  rw [Bool.or_eq_true]
+  rcases List.mem_append.mp hmem with h | h
+  · right
+    cases hp : (select pt m u).policy with
+    | none => simp [getRemedies, hp] at h
+    | some pol =>
+      obtain ⟨h1, h2, h3⟩ := select_sound hinv m u hne hF13c pol hp
+      simp only [getRemedies, hp, List.mem_map, List.mem_filter] at h
+      obtain ⟨r, ⟨hr, hen⟩, hname⟩ := h
+      rw [List.any_eq_true]
+      refine ⟨pol.src, h1, ?_⟩
+      simp only [h2, h3, beq_self_eq_true, Bool.true_and, List.any_eq_true]
+      exact ⟨r, hr, by simp [hen, hname]⟩
+  · left
+    simp only [getRemedies, List.mem_map, List.mem_filter] at h
+    obtain ⟨r, ⟨hr, hen⟩, hname⟩ := h
+    rw [List.any_eq_true]
+    exact ⟨r, hr, by simp [hen, hname]⟩
+
+/-- non-vacuity of (D), and the F13a witness seen through the dispatcher. -/
+example :
+    (match build [epUsersMe, epUsersId] with
+     | .ok pt => dispatchFirst pt noGlobals "GET" urlUsers123 == some "A"
+     | .error _ => false) = true ∧
+    (match build [epUsersId, epUsersMe] with
+     | .ok pt => dispatchFirst pt noGlobals "GET" urlUsers123 == some "B" &&
+                 !dispOk [epUsersId, epUsersMe] noGlobals "GET" urlUsers123 "B"
+     | .error _ => false) = true := by
+  decide
+
 end LunarVerif.C13
